@@ -57,10 +57,19 @@ func (msg *Encrypted) Serialize(client MessageInformator, requireToAck bool) ([]
 	return buf.Bytes(), nil
 }
 
+// minAuthKeyLen is how many bytes of auth key the key schedule of incoming messages reads (x = 8)
+const minAuthKeyLen = 96 + 8 + 32
+
 func DeserializeEncrypted(data, authKey []byte) (*Encrypted, error) {
 	// auth_key_id, msg_key and at least one cipher block
 	if len(data) < tl.LongLen+tl.Int128Len+aes.BlockSize {
 		return nil, fmt.Errorf("encrypted message is too short: %v bytes", len(data))
+	}
+
+	// without a usable auth key (key exchange is not finished yet) nothing can be decrypted: key schedule
+	// panics on such key, and id of the empty key is known to everyone
+	if len(authKey) < minAuthKeyLen {
+		return nil, fmt.Errorf("auth key is too short to decrypt with: %v bytes", len(authKey))
 	}
 
 	msg := new(Encrypted)
